@@ -21,6 +21,9 @@ Clients == 1..NClients
 Chars == Range(Input.chars)
 MarkU == Range(Input.marks)
 Rich == Input.rich
+(* liveness configuration: no schedule recording (hist stays empty, so no VIEW is needed) and edits are
+   bounded by the room left in the authority's log, so that everything edited can still be sent *)
+Live == "live" \in DOMAIN Input /\ Input.live
 
 VARIABLES S, hist
 vars == <<S, hist>>
@@ -42,23 +45,34 @@ StepU(d) ==
            structure |-> TRUE] : p \in {x \in P : Depth(d, x) = 1}})
 
 Init == S = InitState(Base, Clients) /\ hist = <<>>
+RECURSIVE SumUnconf(_)
+SumUnconf(cs) == IF cs = {} THEN 0 ELSE LET c == CHOOSE x \in cs : TRUE IN Len(S.cl[c].unconf) + SumUnconf(cs \ {c})
+Rec(h) == IF Live THEN <<>> ELSE h
 Edit(c, s) ==
   /\ Len(S.cl[c].unconf) < MaxUnconf
+  /\ Live => Len(S.auth.steps) + SumUnconf(Clients) < MaxLog
   /\ LET r == EditRes(S, c, s) IN
      /\ r.ok /\ Len(r.S.cl[c].doc.d) <= MaxToks /\ r.S.cl[c].doc # S.cl[c].doc
      /\ S' = r.S
-  /\ hist' = Append(hist, [a |-> "edit", c |-> c, step |-> s])
+  /\ hist' = Rec(Append(hist, [a |-> "edit", c |-> c, step |-> s]))
 Send(c) ==
   /\ CanSend(S, c)
   /\ Len(S.auth.steps) + Len(S.cl[c].unconf) <= MaxLog
   /\ S' = SendRes(S, c).S
-  /\ hist' = Append(hist, [a |-> "send", c |-> c, step |-> NoStep])
+  /\ hist' = Rec(Append(hist, [a |-> "send", c |-> c, step |-> NoStep]))
 Receive(c) ==
   /\ CanReceive(S, c)
   /\ S' = ReceiveRes(S, c).S
-  /\ hist' = Append(hist, [a |-> "receive", c |-> c, step |-> NoStep])
+  /\ hist' = Rec(Append(hist, [a |-> "receive", c |-> c, step |-> NoStep]))
 Next == \E c \in Clients : (\E s \in StepU(S.cl[c].doc.d) : Edit(c, s)) \/ Send(c) \/ Receive(c)
 Spec == Init /\ [][Next]_vars
+
+(* liveness: with weak fairness on sending and receiving, once editing has stopped (it is bounded) every
+   client ends up to date with nothing unconfirmed - and then, by Converged, with the authority's document *)
+Fair == \A c \in Clients : WF_vars(Send(c)) /\ WF_vars(Receive(c))
+LiveSpec == Spec /\ Fair
+Quiet == \A c \in Clients : S.cl[c].unconf = <<>> /\ S.cl[c].version = Len(S.auth.steps)
+Quiesces == <>[]Quiet
 
 AuthReplays == AuthReplaysOf(S, Base)
 ConfirmedAgree == ConfirmedAgreeOf(S, Base)
